@@ -93,6 +93,9 @@ def gen_history(rng):
             for n in names}
     runs = []
     failing = {}
+    # tasks whose update starts from their previous record (which holds the
+    # clocks of their previous execution)
+    echo = {n for n in names if rng.random() < 0.2}
     for run in range(nruns):
         # fail / recover
         for name in names:
@@ -108,7 +111,8 @@ def gen_history(rng):
                 lose = [rng.choice(names)]
             elif style < 0.6:
                 lose = rng.sample(names, rng.randint(1, max(1, ntasks // 2)))
-        runs.append({'outcomes': {n: failing.get(n, 'ok') for n in names},
+        runs.append({'outcomes': {n: failing.get(
+            n, 'ok_echo' if n in echo else 'ok') for n in names},
                      'lose': sorted(lose),
                      'workers': rng.choice([1, 2, 2, 3, 4, 8])})
     order = names[:]
@@ -387,6 +391,11 @@ def cli_history(hist, seed_parts, rec):
         config.set('path', 'output-root', outroot)
         config.set('path', 'log-root', os.path.join(root, 'log'))
         rng = core.rng_for(*seed_parts, 'cli')
+        # the name of the environment files is an option of the command
+        fname = rng.choice(['valjean.env', 'valjean.env', 'state.pickle',
+                            'env.v2'])
+        rec.count('cli_histories_env_filename.' + fname)
+        prev_done = set()
         for run_no in range(len(hist['runs'])):
             case = case_for_run(hist, run_no)
             # sometimes only a part of the job is asked for
@@ -405,7 +414,7 @@ def cli_history(hist, seed_parts, rec):
                 rec.count('cli_partial_jobs')
             for name in hist['runs'][run_no]['lose']:
                 try:
-                    os.unlink(os.path.join(outroot, name, 'valjean.env'))
+                    os.unlink(os.path.join(outroot, name, fname))
                 except OSError:
                     pass
             for name in case['tasks']:
@@ -418,11 +427,24 @@ def cli_history(hist, seed_parts, rec):
             roots = [tasks[n] for n in case['tasks'] if n not in needed]
             setattr(builtins, key, roots)
             before_env = read_env(root=outroot, names=case['tasks'],
-                                  filename='valjean.env', fmt='pickle')
+                                  filename=fname, fmt='pickle')
             before = snapshot_env(before_env, case['tasks'])
+            # what the previous run left DONE must be there for this one
+            prev_done -= set(hist['runs'][run_no]['lose'])
+            lost = [n for n in sorted(prev_done) if n in case['tasks']
+                    and before.get(n, (None,))[0] != 'DONE']
+            if lost:
+                rec.violation('done-tasks-of-the-previous-run-not-persisted',
+                              f'run {run_no} (environment files named '
+                              f'{fname!r}): {lost} were DONE at the end of '
+                              'the previous run and are not found DONE now',
+                              {'history': hist, 'engine': 'cli',
+                               'seed_parts': list(seed_parts),
+                               'run_no': run_no})
+                return
             args = Namespace(job_file=job, job_args=[], job_kwargs={},
                              workers=case['workers'],
-                             env_filename='valjean.env',
+                             env_filename=fname,
                              env_format='pickle')
             where = {'history': hist, 'engine': 'cli',
                      'seed_parts': list(seed_parts), 'run_no': run_no}
@@ -442,6 +464,9 @@ def cli_history(hist, seed_parts, rec):
             reexec = [n for n in case['tasks'] if mon.exec_run.get(n, 0)
                       and before.get(n, (None,))[0] == 'DONE']
             rec.count('reexecutions_observed', len(reexec))
+            prev_done = (prev_done - set(case['tasks'])) | {
+                n for n in case['tasks'] if status_of(env, n) == 'DONE'
+                and 'output_dir' in env[n]}    # (the others have no file)
         rec.seen(('cli', len(hist['runs']), len(hist['tasks'])))
     finally:
         if hasattr(builtins, key):
